@@ -13,13 +13,19 @@
       the value last written by the owner; shared ones lie below brk of a mapped page;
     * private mappings and shared pages never share an id; Allocs = number of live allocations;
     * no page is marked evacuating between operations.
-  Not part of `Inv` (compared with the real allocator on every run, not proved):
--- OPEN: freeSlots[class] = Σ free over the class's pages; Bytes / SharedMmaps / PrivateMmaps = the mapped
--- pages and private mappings.  They steer only when defragmentation starts / what GetInfo prints.
-  Abstraction to keep in mind: the doubly linked free lists are lists here; that the pointer chains of the
-  real allocator stay consistent and equal to these lists is checked by the correspondence run only.
+  Two further invariants, proved for every reachable state in separate files:
+    * `Cnt` (Proofs/C20Count.lean, theorem `counters_exact`): freeSlots[class] = Σ header.free over the
+      class's pages, SharedMmaps = number of mapped shared pages, PrivateMmaps = number of private mappings,
+      Bytes = pageSize · shared pages + Σ sizes of the private mappings (the model's `bytes` is a.Bytes
+      without the pre-mapped pages waiting in the page cache; the harness subtracts them);
+    * `Rep` (Proofs/C20Ptr.lean, theorems `rep_inv`, `pointer_reads_agree`): the pointer layer `State.heap`
+      (node.prev/next/prevInPage/nextInPage, header.prev/next/freeList, lists/firstPage/lastPage — written by
+      exactly the link writes of the Go code, the back-links being present iff the regenerated facts
+      `Gen.MemClasses.lnk*` say the source has them) spells exactly the abstract lists.
 -/
 import GocoinV.Proofs.C20Once
+import GocoinV.Proofs.C20Ptr
+import GocoinV.Proofs.C20Count
 namespace GocoinV.Props.C20
 open GocoinV.Alloc GocoinV.Gen.MemClasses
 
@@ -284,5 +290,113 @@ theorem relocate_step {V : Type} (s s' : State V) (c pg : Nat) (inv : InvG s) (h
         (∀ b, s.isLive b → s'.mem.get? b = s.mem.get? b))) := by
   obtain ⟨a, b, c1, _, _, _, f⟩ := moveNext_invG inv hc hcls hr
   exact ⟨a, b, c1, f⟩
+
+/-! ### the pointer layer (`State.heap`): doubly linked lists as the code stores them -/
+
+/-- Representation invariant: in every state reached by any sequence of Malloc / Free / owner writes /
+defragmentation passes, the pointer structure the code maintains — `a.lists[class]`, each free slot's
+`node.prev/next` (global list) and `node.prevInPage/nextInPage` (per-page list), each page header's
+`freeList` and `prev/next` (page chain), `firstPage/lastPage[class]` — spells exactly the abstract lists of the
+model: following `next` from `lists[class]` visits exactly `glist`, following `nextInPage` from
+`header.freeList` visits exactly the page's `freeList`, following `header.next` from `firstPage[class]`
+visits exactly `plist` with `lastPage[class]` its last element, every `prev`/`prevInPage`/`header.prev` is
+the predecessor (nil for the first node).  The link writes are the ones the Go source
+contains (`Gen.MemClasses.lnk*`, regenerated on every run): the proof needs every back-link write
+(`next.prev = p` in uintptrFreeShared, `next.prev = 0` in the two Malloc pops, the `prev`-direction
+writes of the removals in defragClass) — without one of them this theorem does not compile. -/
+theorem rep_inv {V : Type} (ops : List (Op V)) (s : State V) (hr : run init ops = .ok s) : Rep s := by
+  suffices H : ∀ (ops : List (Op V)) (s0 s : State V), Inv s0 → Rep s0 →
+      foldE step s0 ops = .ok s → Rep s from H ops init s init_inv init_rep hr
+  intro ops
+  induction ops with
+  | nil => intro s0 s _ r h; simp only [foldE] at h; cases h; exact r
+  | cons op rest ih =>
+    intro s0 s i r h
+    simp only [foldE] at h
+    cases hs : step s0 op with
+    | error e => simp [hs] at h
+    | ok s1 => simp only [hs] at h; exact ih s1 s (step_inv s0 s1 op i hs) (step_rep i r hs) h
+
+/-- One step keeps the representation invariant. -/
+theorem rep_step {V : Type} (s s' : State V) (op : Op V) (inv : Inv s) (r : Rep s)
+    (hr : step s op = .ok s') : Rep s' := step_rep inv r hr
+
+/-- What the code reads through pointers is what the list model says: `a.lists[class]` is the head of
+`glist` (so the slot Malloc pops is the model's), walking `next` / `nextInPage` with enough fuel yields
+`glist` / the page's free list (so the set `freeSlotsArr` that defragClass collects and the nodes it
+unlinks are the model's `saved` / filtered entries), and the lists are consistently doubly linked: the
+first node's back pointer is nil and `n.next.prev = n`, `n.nextInPage.prevInPage = n` for every node —
+the property whose loss (a dropped `next.prev = p`) lets a later middle-of-list removal truncate the
+global free list. -/
+theorem pointer_reads_agree {V : Type} (s : State V) (r : Rep s) :
+    (∀ c, (s.heap.C c).lists = (s.K c).glist.head?) ∧
+    (∀ c f, (s.K c).glist.length ≤ f → walk (nxG s.heap) f (s.heap.C c).lists = (s.K c).glist) ∧
+    (∀ p h f, s.pages.get? p = some h → h.freeList.length ≤ f →
+      walk (nxP s.heap) f (s.heap.H p).freeList = h.freeList.map (Prod.mk p)) ∧
+    (∀ c x, x ∈ (s.K c).glist →
+      (pvG s.heap x = none ↔ (s.heap.C c).lists = some x) ∧
+      (∀ y, nxG s.heap x = some y → y ∈ (s.K c).glist ∧ pvG s.heap y = some x) ∧
+      (∀ y, pvG s.heap x = some y → y ∈ (s.K c).glist)) ∧
+    (∀ p h i, s.pages.get? p = some h → i ∈ h.freeList →
+      (pvP s.heap (p, i) = none ↔ (s.heap.H p).freeList = some (p, i)) ∧
+      (∀ y, nxP s.heap (p, i) = some y → y.1 = p ∧ y.2 ∈ h.freeList ∧ pvP s.heap y = some (p, i))) := by
+  refine ⟨fun c => (r.glob c).head, fun c f hf => (r.glob c).walk f hf, ?_, ?_, ?_⟩
+  · intro p h f hp hf
+    exact (r.page p h hp).walk f (by rw [List.length_map]; exact hf)
+  · intro c x hx
+    exact ⟨(r.glob c).pv_none_iff x hx,
+      fun y hy => ⟨(r.glob c).nx_in x hx y hy, (r.glob c).back x hx y hy⟩,
+      fun y hy => (r.glob c).pv_in x hx y hy⟩
+  · intro p h i hp hi
+    have hm : (p, i) ∈ h.freeList.map (Prod.mk p) := by simp [hi]
+    refine ⟨(r.page p h hp).pv_none_iff _ hm, ?_⟩
+    intro y hy
+    have := mem_mk ((r.page p h hp).nx_in _ hm y hy)
+    exact ⟨this.1, this.2, (r.page p h hp).back _ hm y hy⟩
+
+/-- The page chain: `firstPage[class]` / `lastPage[class]` are the first / last element of the class's
+page list, walking `header.next` from `firstPage` visits exactly the page list (what defragClass scans
+to collect the non-full pages), and the chain is consistently doubly linked (`header.next.prev = header`,
+the first page's `prev` is nil). -/
+theorem page_chain_agrees {V : Type} (s : State V) (r : Rep s) :
+    (∀ c, (s.heap.C c).first = (s.K c).plist.head? ∧ (s.heap.C c).last = (s.K c).plist.getLast?) ∧
+    (∀ c f, (s.K c).plist.length ≤ f → walk (nxH s.heap) f (s.heap.C c).first = (s.K c).plist) ∧
+    (∀ c p, p ∈ (s.K c).plist →
+      (pvH s.heap p = none ↔ (s.heap.C c).first = some p) ∧
+      (∀ q, nxH s.heap p = some q → q ∈ (s.K c).plist ∧ pvH s.heap q = some p)) :=
+  ⟨fun c => ⟨(r.plist c).head, r.last c⟩, fun c f hf => (r.plist c).walk f hf,
+   fun c p hp => ⟨(r.plist c).pv_none_iff p hp,
+     fun q hq => ⟨(r.plist c).nx_in p hp q hq, (r.plist c).back p hp q hq⟩⟩⟩
+
+example : Rep (init : State Nat) := init_rep
+
+/-- The allocator's accounting equals the counted values in every reachable state: Allocs = number of
+live allocations, freeSlots[class] = Σ header.free over the pages of the class's page list, SharedMmaps =
+number of mapped shared pages, PrivateMmaps = number of private mappings, Bytes = pageSize · (shared
+pages) + Σ mapped sizes of the private mappings (`KMap.total`). -/
+theorem counters_exact {V : Type} (ops : List (Op V)) (s : State V) (hr : run init ops = .ok s) :
+    s.allocs = s.live.size ∧
+    (∀ c, ((s.K c).freeSlots : Int) = ((s.K c).plist.map (freeOf s)).sum) ∧
+    s.sharedMmaps = (s.pages.size : Int) ∧ s.privMmaps = (s.privs.size : Int) ∧
+    s.bytes = ((pageSize * s.pages.size + s.privs.total : Nat) : Int) := by
+  suffices H : ∀ (ops : List (Op V)) (s0 s : State V), Inv s0 → Cnt s0 →
+      foldE step s0 ops = .ok s → Cnt s by
+    have c := H ops init s init_inv init_cnt hr
+    exact ⟨(alloc_inv ops s hr).allocs, c.fs, c.sm, c.pm, c.byt⟩
+  intro ops
+  induction ops with
+  | nil => intro s0 s _ r h; simp only [foldE] at h; cases h; exact r
+  | cons op rest ih =>
+    intro s0 s i r h
+    simp only [foldE] at h
+    cases hs : step s0 op with
+    | error e => simp [hs] at h
+    | ok s1 => simp only [hs] at h; exact ih s1 s (step_inv s0 s1 op i hs) (step_cnt i r hs) h
+
+/-- One step keeps the counter invariant. -/
+theorem counters_step {V : Type} (s s' : State V) (op : Op V) (inv : Inv s) (cn : Cnt s)
+    (hr : step s op = .ok s') : Cnt s' := step_cnt inv cn hr
+
+example : Cnt (init : State Nat) := init_cnt
 
 end GocoinV.Props.C20
